@@ -45,6 +45,10 @@ func (li Balances) View(limit uint64) (*RegistryBalancesView, error) {
 		tmp[i] = Uint64View(bal)
 	}
 	typ := BasicListType(common.GweiType, limit)
+	if len(tmp) == 0 {
+		// FromElements without elements builds a backing that cannot be hashed, use the default (empty) list
+		return AsRegistryBalances(typ.New(), nil)
+	}
 	return AsRegistryBalances(typ.FromElements(tmp...))
 }
 
